@@ -356,6 +356,31 @@ def reparse_section(ctx, d, dobj, pool, singles):
                                       {"origin": origin, "packet": p["bytes"], "parse": rep})
                         break
     ctx.extra["raw_packet_reparses"] = n
+    # a generator started with another root container leaves the definition's own root alone
+    root_before = dobj.root_container_name
+    with warnings.catch_warnings():
+        warnings.simplefilter("ignore")
+        try:
+            for _ in dobj.packet_generator(stream, root_container_name="SELC", yield_unrecognized_packet_errors=True):
+                pass
+        except Exception:  # noqa: BLE001
+            pass
+        if dobj.root_container_name != root_before:
+            ctx.violation("C11/definition-modified/root", f"a generator started with root_container_name='SELC' changed the definition's root from "
+                          f"{root_before!r} to {dobj.root_container_name!r}", {"override": "SELC"})
+        else:
+            p0 = pool[0]
+            pk = packets.CCSDSPacket(raw_data=bytes(p0["bytes"]))
+            try:
+                dobj.parse_ccsds_packet(pk)
+                got, items = "ok", typed_items(d, pk)
+            except UnrecognizedPacketTypeError as e:
+                got, items = "unrec", typed_items(d, e.partial_data or {})
+            except Exception as e:  # noqa: BLE001
+                got, items = f"raised {type(e).__name__}", []
+            if got != singles[p0["pid"]]["status"] or items != singles[p0["pid"]]["items"]:
+                ctx.violation("C11/definition-modified/root", "after a generator with another root, parsing from the definition's own root gives another result",
+                              {"override": "SELC"})
 
 
 def seg_section(ctx, d, dobj, rng, q):
